@@ -77,14 +77,17 @@ class C25(Check):
                   "an entry is in the table iff a creator still holds it or a granted use is outstanding; retained = number of holders and "
                   "usagecnt + outstanding = usagelmt + still-promised; hence it is removed in the very step that makes retained = 0 and "
                   "usagecnt = usagelmt; no granted use and no addto ever finds the entry missing (no NULL dereference); no incarnation "
-                  "is given back to the mempool twice and every allocated one is in the table, private to one thread, or freed; when all "
+                  "is given back to the mempool twice (that every allocated incarnation is in the table, private to one thread, or freed is "
+                  "checked by the oracle on each run, not proved); when all "
                   "threads have finished the table holds exactly the keys whose announced uses were not all performed (empty when they "
                   "were); critical sections of one bucket exclude each other; one thread alone executes each operation as the sequential "
                   "specification. Tie: the real datarepo.c + parsec_hash_table.c (compiled in the harness with yielding locks/atomics) run "
                   "under the same schedules in ucontext coroutines with a real parsec_mempool; events, final table and per-thread step "
                   "counts are compared with the extracted model. Full level.")
     level_note = ("Trusted: Coq kernel, extraction, cosched/interpose.h (a yield before every bucket lock attempt / unlock / atomic RMW; the "
-                  "plain accesses under the lock belong to the preceding segment, as in the model), the h_alloc/h_free routing of "
+                  "plain accesses under the lock belong to the preceding segment, as in the model; code after an unlock runs in the same segment "
+                  "as the unlock, so the harness also probes that every nolock_* table access of datarepo.c happens with the bucket locked), "
+                  "the h_alloc/h_free routing of "
                   "parsec_thread_mempool_allocate/free (LIFO operations run unscheduled: they are C27/C30's subject), the hand-built "
                   "mempool / execution stream and the hash-table tunables set as parsec_init does (no resize with <= 16 collisions; the "
                   "table rw-lock of libparsec is never write-locked). Assumes SC atomics, int32 counters that do not overflow. The gate "
@@ -330,6 +333,8 @@ class C25(Check):
                 t = int(t)
             except Exception:
                 return "unparsable event " + e
+            if tag == "!":
+                return "thread %d accessed the table (%s) without holding the bucket lock" % (t, rest)
             if tag == "x":
                 return "entry %s given back to the mempool twice" % rest
             if tag == "m":
@@ -459,7 +464,7 @@ class C25(Check):
 
     def signature(self, case, obs):
         why = self.oracle(case, obs) or "none"
-        for word, sig in (("twice", "double-free"), ("found no entry", "use-missing"), ("found nothing", "lookup-missing"), ("dereferenced", "null-deref"),
+        for word, sig in (("twice", "double-free"), ("second entry", "double-insert"), ("without holding", "unlocked-access"), ("found no entry", "use-missing"), ("found nothing", "lookup-missing"), ("dereferenced", "null-deref"),
                           ("while in use", "early-reclaim"), ("still in the repository", "leak"), ("not reclaimed", "leak"),
                           ("missing at the end", "early-reclaim"), ("did not complete", "deadlock"), ("did not answer", "hang")):
             if word in why:
